@@ -22,24 +22,38 @@ def guard_lists(maxlen):
     return out
 
 
+BG_COUNTER = [0]
+
+
 def build(guards, labelset, kind, pos, engine):
+    bgdir = None
+    if kind == "system-bg":
+        import os, vlib
+        BG_COUNTER[0] += 1
+        bgdir = os.path.join(vlib.CACHE, "tmp", "bg", "c11_%d_%d" % (os.getpid(), BG_COUNTER[0]))
     g = "".join("%s %s\n" % (p, l) for p, l in guards)
     if kind == "statement":
         rec = g + "statement ok\nguarded\n\n"
     elif kind == "query":
         rec = g + "query I\nguarded\n----\n1\n\n"
+    elif kind == "system-bg":
+        # a background command (`cmd &`) is spawned for real, outside the run_command hook: observed through the marker it creates
+        rec = g + "system ok\ntouch %s/guarded &\n\n" % bgdir
     else:
         rec = g + "system ok\nguarded\n\n"
     plain = ["statement ok\nplain%d\n\n" % i for i in range(2)]
     parts = plain[:]
     parts.insert(pos, rec)
     L = set(labelset)
-    admit_set = L | ({engine} if (engine and kind != "system") else set())
+    admit_set = L | ({engine} if (engine and not kind.startswith("system")) else set())
     run = all((l in admit_set) if p == "onlyif" else (l not in admit_set) for p, l in guards)
-    return runfam.impl_case("".join(parts), labels=sorted(labelset), engine_name=engine,
+    c = runfam.impl_case("".join(parts), labels=sorted(labelset), engine_name=engine,
                             default_answer=["rows", "I", [["1"]]],
                             meta={"guards": [list(x) for x in guards], "labels": sorted(labelset), "kind": kind,
                                   "pos": pos, "engine": engine, "expect_run": run})
+    if bgdir:
+        c["bgdir"] = bgdir
+    return c
 
 
 def corpus():
@@ -56,6 +70,10 @@ def generate(rng, tier):
             for kind in ("statement", "query", "system"):
                 for pos in (0, 1, 2):
                     cases.append(build(g, ls, kind, pos, "eng"))
+    # background system commands under every guard list of <= 2 guards (quick: a sample) - each costs a real process and a settle time
+    bgs = [(g, ls, pos) for g in small for ls in subsets for pos in (0, 2)]
+    for g, ls, pos in (rng.sample(bgs, 160) if tier == "quick" else rng.sample(bgs, 1200)):
+        cases.append(build(g, ls, "system-bg", pos, "eng"))
     if tier == "quick":
         for _ in range(5000):
             cases.append(build(rng.choice(big), rng.choice(subsets), rng.choice(["statement", "query", "system"]),
@@ -79,7 +97,7 @@ def execute(cases, tier):
 def project(case, obs):
     if "results" not in obs:
         return obs
-    return {"results": obs["results"], "events": obs["events"]}
+    return {"results": obs["results"], "events": obs["events"], "bg": obs.get("bg", [])}
 
 
 def spec_verdict(case, pi, pm):
@@ -90,7 +108,7 @@ def direct_check(case, obs):
     if "results" not in obs:
         return None
     m = case["meta"]
-    ran = any((e[0] == "sql" and e[2] == "guarded") or (e[0] == "cmd" and e[-1] == "guarded") for e in obs["events"])
+    ran = any((e[0] == "sql" and e[2] == "guarded") or (e[0] == "cmd" and e[-1] == "guarded") for e in obs["events"]) or bool(obs.get("bg"))
     if ran != m["expect_run"]:
         return "contradicts L1: guarded record %s but the guards %s the label set" % (
             "ran" if ran else "was skipped", "reject" if not m["expect_run"] else "admit")
